@@ -1298,6 +1298,56 @@ pub fn check_c20_inflight(case: &Case, order: (usize, u64, u32), acc: &mut Acc) 
     }
 }
 
+
+/// C11 on the cache's own union path (`get_or_cache_sorted_candidates(Requirement::Union)`, which
+/// providers call from `sort_candidates`): when the query is blocked for the first time, the candidates
+/// of every member package must have been requested, not one member after the other.
+pub fn check_c11_cache_union(case: &Case, order: (usize, u64, u32), acc: &mut Acc) {
+    use crate::sched::{Controller, CtlRuntime, Policy};
+    use resolvo::runtime::AsyncRuntime;
+    for un in 0..case.u.unions.len() as Id {
+        let mut pkgs: Vec<Id> = case.u.unions[un as usize].iter().map(|&v| case.u.vsets[v as usize].name).collect();
+        pkgs.sort();
+        pkgs.dedup();
+        let ctl = Controller::new(vec![], Policy::Fifo, false);
+        let mut prov = Prov::new(&case.u);
+        prov.ctl = Some(ctl.clone());
+        prov.mask = K_CANDS;
+        let log = prov.log.clone();
+        *ctl.log.borrow_mut() = Some(log.clone());
+        let cache = SolverCache::new(prov);
+        let rt = CtlRuntime(ctl.clone());
+        let r = guarded("cache", || rt.block_on(cache.get_or_cache_sorted_candidates(to_req(Req::Union(un)))).map(|c| c.len()));
+        acc.evaluations += 1;
+        acc.count("cache_union_queries");
+        if r.is_err() {
+            acc.violation(viol("C11", "cache-union:did-not-complete", format!("sorted candidates of union {un} on a bare cache did not complete"), json!({"kind": "c11-cache-union", "case": case, "union": un, "universe": case.u.describe(&case.p)}), order));
+            continue;
+        }
+        // parked get_candidates requests at the first quiescent point
+        let first = log.borrow().iter().find_map(|e| match e {
+            Ev::Quiescent(p) => Some(p.iter().filter(|x| x.0 == K_CANDS).map(|x| x.1).collect::<Vec<_>>()),
+            _ => None,
+        });
+        if let Some(mut parked) = first {
+            parked.sort();
+            parked.dedup();
+            if pkgs.len() >= 2 {
+                acc.count("cache_union_queries_over_2+_packages");
+            }
+            if parked != pkgs {
+                acc.violation(viol(
+                    "C11",
+                    "cache-union:members-serialized",
+                    format!("get_or_cache_sorted_candidates(union {un}) is blocked with get_candidates in flight for packages {parked:?} only; the union's members belong to packages {pkgs:?}"),
+                    json!({"kind": "c11-cache-union", "case": case, "union": un, "universe": case.u.describe(&case.p)}),
+                    order,
+                ));
+            }
+        }
+    }
+}
+
 /// One package with many candidates: favored rotation and order stability beyond small sizes.
 pub fn check_c20_wide(acc: &mut Acc) {
     for n in [5usize, 21, 33, 64] {
@@ -1431,6 +1481,11 @@ pub fn replay_c20(v: &serde_json::Value) -> Vec<String> {
     if v["kind"] == "c20-async" {
         let mut acc = Acc::default();
         check_c20_async_union(&case, (0, 0, 0), &mut acc);
+        return acc.violations.iter().map(|v| v.signature.clone()).collect();
+    }
+    if v["kind"] == "c11-cache-union" {
+        let mut acc = Acc::default();
+        check_c11_cache_union(&case, (0, 0, 0), &mut acc);
         return acc.violations.iter().map(|v| v.signature.clone()).collect();
     }
     if v["kind"] == "c20-guarded" {
